@@ -77,7 +77,17 @@ Allowed(fn, cls, kind) ==
 (* a scalar (0-dimensional) answer for a scalar input, else as many elements as the input *)
 AnswerForm(kind) == [quantity |-> kind \in QuantityKinds, unit |-> UnitOf(kind), scalar |-> kind \in ScalarKinds]
 
-(* one call: [fn, kind, pat] with pat a non-empty sequence of classes (length 1 for scalar kinds) *)
+(* How the array is laid out in memory is not part of the statement: the outcome depends   *)
+(* on the VALUES handed over only.  An array argument may be read-only (setflags /        *)
+(* frombuffer), a strided view (every second element of a longer array), byte-swapped     *)
+(* (big-endian, as read from FITS) or a transposed (Fortran-ordered) 2-d view.            *)
+Layouts == {"plain", "readonly", "strided", "byteswapped", "transposed2d"}
+LayoutsOf(kind) == IF kind \in ScalarKinds THEN {"plain"}
+                   ELSE IF kind \in QuantityKinds THEN {"plain", "readonly", "strided"} ELSE Layouts
+ABLayouts == {"plain", "readonly", "strided", "byteswapped", "fortran"}
+
+(* one call: [fn, kind, pat, layout] with pat a non-empty sequence of classes (length 1 for scalar kinds); *)
+(* Expected does not look at the layout                                                                    *)
 Expected(c) == [raises |-> FALSE,
                 form |-> AnswerForm(c.kind),
                 len |-> Len(c.pat),
@@ -114,6 +124,7 @@ ElementTypeIndependent(c) == LET f == [c EXCEPT !.kind = DoubleOf(c.kind)] IN
      /\ Expected(c).allowed = Expected(f).allowed
      /\ Expected(c).form = Expected(f).form
      /\ (c.kind \in IntegerKinds => Expected(c).precision = "double")
+LayoutIndependent(c) == \A l \in LayoutsOf(c.kind) : Expected([c EXCEPT !.layout = l]) = Expected(c)
 TotalOnDomain(c) == ~Expected(c).raises /\ Expected(c).inputkept /\ Expected(c).len = Len(c.pat)
 
 (* ---- named deviation (what the code does on the unfixed tree) ---- *)
@@ -141,6 +152,7 @@ ExpectedAB(c) == [shift |-> Shift(c.form, c.band), level |-> c.m0 + Shift(c.form
 (* laws tying the three forms to ONE offset per band *)
 MagFluxConsistent(b) == Shift("mag", b) = Shift("flux", b)          \* magnitude of the converted flux = converted magnitude
 SignalToNoiseKept(b) == 2 * Shift("flux", b) + Shift("ivar", b) = 0  \* flux * sqrt(ivar) unchanged: IvarFactor * FluxFactor^2 = 1
+ABLayoutIndependent(c) == \A l \in ABLayouts : ExpectedAB([c EXCEPT !.layout = l]) = ExpectedAB(c)
 OffsetIndependentOfLevel(c) == ExpectedAB(c).level - c.m0 = ExpectedAB([c EXCEPT !.m0 = 0]).level
 
 (* ============== Part 3: laws over recorded call histories ============== *)
@@ -156,6 +168,8 @@ Cap == 1073741824
 (* H.d[x][y]  = |val y - val x| in units, rounded up (0 iff identical), capped             *)
 (* H.s[x][y]  = sign(val y - val x)  in {-1, 0, 1}                                         *)
 (* H.calls[k] = [fn, kind, arg, res, raised, kept, form]   arg, res: sequences of value ids *)
+(*              (a call also records the memory layout of its argument; no law reads it:   *)
+(*              calls with different layouts are joined by the laws like any others)       *)
 WCalls(H) == DOMAIN H.calls
 WGood(H) == {k \in WCalls(H) : ~H.calls[k].raised}
 RelOf(H, x, y) == IF H.d[x][y] = 0 /\ H.s[x][y] = 0 THEN "identical"
@@ -243,7 +257,8 @@ ABSat(H, law, i) == LET o == H.obs[i[1]] IN o.shift = Shift(o.form, o.band) /\ o
 (*              min / max of the trace's flux over all (over unmasked) pixels              *)
 (* H.lin[j]     = [z, a, x, b, y]  flux z = a * flux x + b * flux y  (by construction)      *)
 (* H.meq[j]     = [x, y]           fluxes x and y differ only at masked pixels             *)
-(* H.calls[k]   = [flux, masked, raised, shapeok, res]                                     *)
+(* H.calls[k]   = [flux, masked, raised, shapeok, res]  (+ the memory layouts used for     *)
+(*              flux / wavelength image / mask, which no law reads)                        *)
 (* H.combs[j]   = [a, x, b, y, val]  result id val = a * result x + b * result y (harness) *)
 (* H.d[r1][r2][q], H.s[r1][r2][q]  discrepancy (units of 1e-12 of the flux scale, rounded  *)
 (*              up, capped) and sign of (r2 - r1); NaN gives d = Cap and s = -1 both ways  *)
